@@ -795,8 +795,10 @@ class EvolutionSuperOperator(SuperOperator, TimeDependent, Saveable):
                         raise Exception("When argument time is a string, "+
                                         "it must be equal to 'all'")
 
+                # (the states are in the frame this superoperator is in)
                 rhot = ReducedDensityMatrixEvolution(timeaxis=self.time,
-                                                     rhoi=target)
+                                                     rhoi=target,
+                                                     is_in_rwa=self.is_in_rwa)
                 k_i = 0
                 for tt in self.time.data:
                     rhot.data[k_i,:,:] = \
@@ -827,7 +829,8 @@ class EvolutionSuperOperator(SuperOperator, TimeDependent, Saveable):
                         raise Exception("The times have to be equidistant")
                 
                 rhot = ReducedDensityMatrixEvolution(timeaxis=ntime,
-                                                     rhoi=target)
+                                                     rhoi=target,
+                                                     is_in_rwa=self.is_in_rwa)
                 
                 k_i = 0
                 for tt in ntime.data:
